@@ -16,6 +16,8 @@ use tokio_rustls::rustls::pki_types::ServerName;
 #[derive(Clone, Debug, Default)]
 pub struct ConnLog {
     pub preamble_ok: bool,
+    /// padding length declared (and sent) in the authentication preamble
+    pub preamble_pad: usize,
     pub frames: Vec<RFrame>,
     pub eof: bool,
 }
@@ -52,6 +54,12 @@ fn connector() -> Arc<tokio_rustls::TlsConnector> {
 impl CWorld {
     /// Must be called on the thread that runs the scenario's (current-thread) runtime, inside it.
     pub fn start(padding: Arc<PaddingFactory>, pool: SessionPoolConfig, answer: Answer) -> CWorld {
+        Self::start_pushing(padding, pool, answer, None)
+    }
+
+    /// `push`: the server's scheme text; it is pushed (UPDATE_PADDING_SCHEME) to every session whose settings frame
+    /// announces another padding-md5, as a real server does.
+    pub fn start_pushing(padding: Arc<PaddingFactory>, pool: SessionPoolConfig, answer: Answer, push: Option<String>) -> CWorld {
         let conns: Arc<Mutex<Vec<Arc<Mutex<ConnLog>>>>> = Arc::new(Mutex::new(vec![]));
         let kills: Arc<Mutex<Vec<Arc<tokio::sync::Notify>>>> = Arc::new(Mutex::new(vec![]));
         let c2 = conns.clone();
@@ -62,11 +70,12 @@ impl CWorld {
             c2.lock().unwrap().push(log.clone());
             let kill = Arc::new(tokio::sync::Notify::new());
             k2.lock().unwrap().push(kill.clone());
+            let push = push.clone();
             tokio::spawn(async move {
                 tokio::select! {
                     biased;
                     _ = kill.notified() => {}
-                    _ = serve(b, log, answer) => {}
+                    _ = serve(b, log, answer, push) => {}
                 }
             });
             Some(Ok(Box::new(a) as Box<dyn anytls_rs::verif::VerifIo>))
@@ -98,7 +107,7 @@ impl Drop for CWorld {
     }
 }
 
-async fn serve(io: tokio::io::DuplexStream, log: Arc<Mutex<ConnLog>>, answer: Answer) {
+async fn serve(io: tokio::io::DuplexStream, log: Arc<Mutex<ConnLog>>, answer: Answer, push: Option<String>) {
     let Ok(mut s) = acceptor().accept(io).await else { return };
     let mut pre = [0u8; 34];
     if s.read_exact(&mut pre).await.is_err() {
@@ -111,6 +120,7 @@ async fn serve(io: tokio::io::DuplexStream, log: Arc<Mutex<ConnLog>>, answer: An
         return;
     }
     log.lock().unwrap().preamble_ok = pre[..32] == want[..];
+    log.lock().unwrap().preamble_pad = pad;
     let mut buf: Vec<u8> = vec![];
     let mut tmp = vec![0u8; 65536];
     let mut answered: Vec<u32> = vec![];
@@ -132,6 +142,13 @@ async fn serve(io: tokio::io::DuplexStream, log: Arc<Mutex<ConnLog>>, answer: An
             }
             match f.cmd {
                 SETTINGS => {
+                    if let Some(text) = &push {
+                        let announced = String::from_utf8_lossy(&f.data).lines().find_map(|l| l.strip_prefix("padding-md5=").map(|x| x.trim().to_string()));
+                        let mine = format!("{:x}", md5::compute(text.as_bytes()));
+                        if announced.as_deref() != Some(mine.as_str()) {
+                            let _ = s.write_all(&enc(UPDATE_PADDING, 0, text.as_bytes())).await;
+                        }
+                    }
                     let _ = s.write_all(&enc(SERVER_SETTINGS, 0, b"v=2")).await;
                 }
                 PSH if !answered.contains(&f.id) => {
